@@ -41,6 +41,17 @@ def check(repo: Repo, rep: Report) -> None:
     rep.rule("S2-slice-semantics", "for every sign class: composed pipeline == list slicing for all n <= 8", floor=40)
     rep.rule("S3-getitem-int", "source[k] == [xs[k]] (or empty when out of range) for k in -5..5", floor=8)
     rep.rule("S4-bounds-reentrant", "the positional operators slice_ composes update their countdown before the downstream on_next it gates", floor=1)
+    rep.rule("S5-spellings-forward", "ops.slice / Observable.slice hand (start, stop, step) to slice_ unchanged, in that order", floor=2)
+    for rel, q, callee in (("reactivex/operators/__init__.py", "slice", "slice_"),
+                           ("reactivex/observable/mixins/filtering.py", "FilteringMixin.slice", "slice")):
+        ent = repo.fn(rel, q)
+        params = [a.arg for a in ent.node.args.args if a.arg != "self"]
+        calls = [n for n in ent.direct_nodes() if isinstance(n, ast.Call) and u(n.func).split(".")[-1] == callee]
+        ok = len(calls) == 1 and not calls[0].keywords and [u(a) for a in calls[0].args] == params[:3] and len(params) == 3 \
+            and not [n for n in ent.direct_nodes() if isinstance(n, (ast.Assign, ast.AugAssign)) and any(u(t) in params for t in (n.targets if isinstance(n, ast.Assign) else [n.target]))]
+        rep.ob("S5-spellings-forward", ent, f"{q}({', '.join(params)}) -> {callee}({', '.join(params[:3])})", ok,
+               f"{q} does not hand its (start, stop, step) to {callee} unchanged: this spelling of a slice selects different elements "
+               f"from source[start:stop:step] for some bounds (e.g. a bound of 0 rewritten by `or None`)")
     from . import state_common as SC
     n_gate = 0
     for rel, q in (("reactivex/operators/_take.py", "take_.subscribe"), ("reactivex/operators/_skip.py", "skip_.subscribe"),
